@@ -1,63 +1,89 @@
 ----------------------------- MODULE LocalQueue -----------------------------
 (* C04: the local persistent queue (internal/pkg/source/lq) across a kill or a graceful stop and a   *)
 (* restart on the same job.  Durable: the rows of lq.db (FRESH | CLAIMED | gone) and the WARC         *)
-(* records.  Volatile: the consumer's buffer of claimed rows, the seeds inside the pipeline (reactor   *)
-(* state table), the finisher's batch of ids waiting to be deleted.                                   *)
-(*   Claim       one transaction: up to Batch FRESH rows become CLAIMED and enter the buffer          *)
-(*   Insert      a buffered row becomes a seed in the reactor                                          *)
+(* records.  Volatile, one variable per place a claimed row can be in the running crawler:            *)
+(*   slice     the consumer fetcher's batch of claimed rows not yet pushed                              *)
+(*   chanbuf   the rows in the consumer's channel (capacity Batch = --workers)                          *)
+(*   sending   the row the consumer's sender holds while it waits for a reactor token                   *)
+(*   inflight  the seeds inside the pipeline (reactor state table)                                      *)
+(*   finmsg    seeds the reactor has released (token free) whose finish message is on its way to the   *)
+(*             queue's finisher                                                                       *)
+(*   finBatch  the finisher's ids waiting to be deleted                                                 *)
+(* Actions:                                                                                            *)
+(*   Claim       one transaction: up to Batch FRESH rows become CLAIMED (only when the fetcher has      *)
+(*               pushed its previous batch)                                                            *)
+(*   Push, Take, Insert   fetcher -> channel -> sender -> reactor                                       *)
 (*   Capture     the seed's responses are written to the WARC (synchronous writing)                    *)
-(*   Finish      only after Capture: the finish message reaches the queue's finisher (batch)           *)
-(*   Delete      one transaction: the batch's rows are deleted                                         *)
+(*   Finish      only after Capture: the finisher marks the seed finished in the reactor and sends the  *)
+(*               finish message;  Recv: the message reaches the queue's finisher (batch)                *)
+(*   Delete(S)   one transaction: rows of a batch of finished ids are deleted                           *)
 (*   Kill        at any moment: everything volatile is gone                                            *)
-(*   Stop        graceful: rows of the seeds still in the reactor are reset to FRESH (not the buffer)  *)
+(*   Stop        graceful: rows of the seeds still in the reactor are reset to FRESH (nothing else)     *)
 (*   Restart     ResetAtStart = TRUE (repaired): CLAIMED rows become FRESH again; FALSE: nothing       *)
 EXTENDS Integers, FiniteSets, TLC
 
 CONSTANTS Ids, Batch, ResetAtStart, MaxKills
 
-VARIABLES row, buffer, inflight, captured, finBatch, reported, alive, kills
-vars == <<row, buffer, inflight, captured, finBatch, reported, alive, kills>>
+VARIABLES row, slice, chanbuf, sending, inflight, captured, finmsg, finBatch, reported, alive, kills
+vars == <<row, slice, chanbuf, sending, inflight, captured, finmsg, finBatch, reported, alive, kills>>
 
-Init == /\ row = [i \in Ids |-> "FRESH"] /\ buffer = {} /\ inflight = {} /\ captured = {} /\ finBatch = {}
-        /\ reported = {} /\ alive = TRUE /\ kills = 0
+None == "none"
+Init == /\ row = [i \in Ids |-> "FRESH"] /\ slice = {} /\ chanbuf = {} /\ sending = None /\ inflight = {}
+        /\ captured = {} /\ finmsg = {} /\ finBatch = {} /\ reported = {} /\ alive = TRUE /\ kills = 0
 
 Fresh == {i \in Ids : row[i] = "FRESH"}
-Claim == /\ alive /\ buffer = {} /\ Fresh # {}
-         /\ \E S \in SUBSET Fresh : /\ S # {} /\ Cardinality(S) <= Batch /\ (Cardinality(S) = Batch \/ S = Fresh)
-                                    /\ row' = [i \in Ids |-> IF i \in S THEN "CLAIMED" ELSE row[i]]
-                                    /\ buffer' = S
-         /\ UNCHANGED <<inflight, captured, finBatch, reported, alive, kills>>
-Insert(i) == /\ alive /\ i \in buffer /\ Cardinality(inflight) < Batch
-             /\ buffer' = buffer \ {i} /\ inflight' = inflight \cup {i}
-             /\ UNCHANGED <<row, captured, finBatch, reported, alive, kills>>
+ClaimSet(S) == /\ alive /\ slice = {} /\ S # {} /\ S \subseteq Fresh
+               /\ Cardinality(S) <= Batch /\ (Cardinality(S) = Batch \/ S = Fresh)
+               /\ row' = [i \in Ids |-> IF i \in S THEN "CLAIMED" ELSE row[i]]
+               /\ slice' = S
+               /\ UNCHANGED <<chanbuf, sending, inflight, captured, finmsg, finBatch, reported, alive, kills>>
+Claim == \E S \in SUBSET Fresh : ClaimSet(S)
+Push(i) == /\ alive /\ i \in slice /\ Cardinality(chanbuf) < Batch
+           /\ slice' = slice \ {i} /\ chanbuf' = chanbuf \cup {i}
+           /\ UNCHANGED <<row, sending, inflight, captured, finmsg, finBatch, reported, alive, kills>>
+Take(i) == /\ alive /\ sending = None /\ i \in chanbuf
+           /\ chanbuf' = chanbuf \ {i} /\ sending' = i
+           /\ UNCHANGED <<row, slice, inflight, captured, finmsg, finBatch, reported, alive, kills>>
+Insert == /\ alive /\ sending # None /\ Cardinality(inflight) < Batch
+          /\ inflight' = inflight \cup {sending} /\ sending' = None
+          /\ UNCHANGED <<row, slice, chanbuf, captured, finmsg, finBatch, reported, alive, kills>>
 Capture(i) == /\ alive /\ i \in inflight /\ i \notin captured
               /\ captured' = captured \cup {i}
-              /\ UNCHANGED <<row, buffer, inflight, finBatch, reported, alive, kills>>
+              /\ UNCHANGED <<row, slice, chanbuf, sending, inflight, finmsg, finBatch, reported, alive, kills>>
 Finish(i) == /\ alive /\ i \in inflight /\ i \in captured
-             /\ inflight' = inflight \ {i} /\ finBatch' = finBatch \cup {i} /\ reported' = reported \cup {i}
-             /\ UNCHANGED <<row, buffer, captured, alive, kills>>
-Delete == /\ alive /\ finBatch # {}
-          /\ row' = [i \in Ids |-> IF i \in finBatch THEN "gone" ELSE row[i]] /\ finBatch' = {}
-          /\ UNCHANGED <<buffer, inflight, captured, reported, alive, kills>>
+             /\ inflight' = inflight \ {i} /\ finmsg' = finmsg \cup {i} /\ reported' = reported \cup {i}
+             /\ UNCHANGED <<row, slice, chanbuf, sending, captured, finBatch, alive, kills>>
+Recv(i) == /\ alive /\ i \in finmsg
+           /\ finmsg' = finmsg \ {i} /\ finBatch' = finBatch \cup {i}
+           /\ UNCHANGED <<row, slice, chanbuf, sending, inflight, captured, reported, alive, kills>>
+DeleteSet(S) == /\ alive /\ S # {} /\ S \subseteq finBatch
+                /\ row' = [i \in Ids |-> IF i \in S THEN "gone" ELSE row[i]] /\ finBatch' = finBatch \ S
+                /\ UNCHANGED <<slice, chanbuf, sending, inflight, captured, finmsg, reported, alive, kills>>
+Delete == \E S \in SUBSET finBatch : DeleteSet(S)
+Volatile0 == slice' = {} /\ chanbuf' = {} /\ sending' = None /\ inflight' = {} /\ finmsg' = {} /\ finBatch' = {}
 Kill == /\ alive /\ kills < MaxKills
-        /\ alive' = FALSE /\ kills' = kills + 1 /\ buffer' = {} /\ inflight' = {} /\ finBatch' = {}
+        /\ alive' = FALSE /\ kills' = kills + 1 /\ Volatile0
         /\ UNCHANGED <<row, captured, reported>>
 Stop == /\ alive /\ kills < MaxKills
         /\ row' = [i \in Ids |-> IF i \in inflight /\ row[i] = "CLAIMED" THEN "FRESH" ELSE row[i]]
-        /\ alive' = FALSE /\ kills' = kills + 1 /\ buffer' = {} /\ inflight' = {} /\ finBatch' = {}
+        /\ alive' = FALSE /\ kills' = kills + 1 /\ Volatile0
         /\ UNCHANGED <<captured, reported>>
 Restart == /\ ~alive /\ alive' = TRUE
            /\ row' = IF ResetAtStart THEN [i \in Ids |-> IF row[i] = "CLAIMED" THEN "FRESH" ELSE row[i]] ELSE row
-           /\ UNCHANGED <<buffer, inflight, captured, finBatch, reported, kills>>
+           /\ UNCHANGED <<slice, chanbuf, sending, inflight, captured, finmsg, finBatch, reported, kills>>
 
-Next == Claim \/ Delete \/ Kill \/ Stop \/ Restart \/ \E i \in Ids : Insert(i) \/ Capture(i) \/ Finish(i)
-Live == Claim \/ Delete \/ Restart \/ \E i \in Ids : Insert(i) \/ Capture(i) \/ Finish(i)
+Next == Claim \/ Delete \/ Kill \/ Stop \/ Restart \/ Insert \/ \E i \in Ids : Push(i) \/ Take(i) \/ Capture(i) \/ Finish(i) \/ Recv(i)
+Live == Claim \/ Delete \/ Restart \/ Insert \/ \E i \in Ids : Push(i) \/ Take(i) \/ Capture(i) \/ Finish(i) \/ Recv(i)
 Spec == Init /\ [][Next]_vars /\ WF_vars(Live)
 
+Held == slice \cup chanbuf \cup (IF sending = None THEN {} ELSE {sending}) \cup inflight \cup finmsg \cup finBatch
 \* finished implies captured (the WARC write precedes the finish message)
 FinishedCaptured == reported \subseteq captured
 \* a row that is handed out is held by the running crawler - otherwise it is stranded
-NoStranded == alive => \A i \in Ids : row[i] = "CLAIMED" => (i \in buffer \cup inflight \cup finBatch)
+NoStranded == alive => \A i \in Ids : row[i] = "CLAIMED" => i \in Held
+\* a row is in at most one place
+OnePlace == /\ slice \cap chanbuf = {} /\ slice \cap inflight = {} /\ chanbuf \cap inflight = {} /\ finBatch \cap inflight = {} /\ finmsg \cap inflight = {} /\ finmsg \cap finBatch = {}
+            /\ (sending # None => sending \notin slice \cup chanbuf \cup inflight \cup finBatch)
 \* every URL of the queue is eventually crawled and acknowledged
 Drains == <>[](\A i \in Ids : row[i] = "gone")
 =============================================================================
